@@ -38,6 +38,8 @@ HASH_ITER_METHODS = {
     "retain", "into_iter", "extract_if", "extend", "next", "fmt", "for_each", "fold",
 }
 HASH_TYPE = re.compile(r"(collections::hash::(map|set)|collections::hash_map|collections::hash_set|collections::HashMap|collections::HashSet|hashbrown)")
+GLOBAL_STATE_CRATES = {"yansi", "owo_colors", "colored", "termcolor", "anstream", "anstyle_query", "supports_color", "rand", "fastrand", "getrandom",
+                       "chrono", "time", "log", "once_cell", "lazy_static", "parking_lot", "ahash"}
 PTR_IDENTITY = re.compile(r"(^|::)ptr::(eq|addr_eq)$|::ptr_eq$|::(addr|expose_provenance|expose_addr)$|::as_ptr$")
 
 
@@ -103,7 +105,7 @@ def run(chk: harness.Check):
         "Effect analysis over the call graph of the current tree (MIR, resolved callees, closures, fn items as values, "
         "class-hierarchy resolution of generic trait calls): no function reachable from the parse entry points accesses "
         "a static/thread-local, uses interior mutability or synchronisation on a non-local place, iterates a hash table, "
-        "reads ambient inputs, compares pointer identities or performs unsafe operations, except the reviewed entries of "
+        "reads ambient inputs (including calls into dependencies with process-wide switches such as yansi), compares pointer identities or performs unsafe operations, except the reviewed entries of "
         "tables/effects.toml; nothing evaluated inside a tracing macro takes a `&mut` argument or consumes an iterator; the parser type transitively contains no interior-mutable type; entry points take &self. "
         "This decides the absence of hidden-state/nondeterminism sources (a necessary condition), not equality of results.")
     chk.trusted = ["rustc MIR construction and trait resolution (nightly)", "std and dependency crates summarised by path (pure unless matched by an effect pattern)",
@@ -212,6 +214,10 @@ def run(chk: harness.Check):
             # N4 ambient
             if AMBIENT.search(ck):
                 judge(fk, "ambient", ck, where, f"ambient input {ck}")
+            # dependencies that keep a process-wide switch or generator (yansi: global enable flag consulted whenever a Painted value is
+            # formatted; colour/rng/clock crates likewise): styled or random text made during a parse depends on who toggled it last
+            if c.get("rkrate", c.get("krate")) in GLOBAL_STATE_CRATES:
+                judge(fk, "ambient", ck, where, f"call into `{c.get('rkrate', c.get('krate'))}`, which consults process-wide state ({ck})")
             if PTR_IDENTITY.search(ck) and c.get("rkrate", c.get("krate")) in ("core", "std", "alloc"):
                 judge(fk, "ptr-identity", ck, where, f"pointer identity / address observed through {ck}")
             # N5 unsafe fn call (compiler-made ones from format_args!/panic! filtered by macro origin)
